@@ -253,8 +253,13 @@ Theorem C08_arraybucket_swallowed_shrink_failure :
 Proof. exact remove_back_f_spec. Qed.
 Print Assumptions C08_arraybucket_swallowed_shrink_failure.
 
-(* HashMultiMap: a call that throws (Add / Add(keyIter) whose value-array allocation fails or whose new key cannot be
-   placed; RemoveKey whose mHashMap.Remove throws, rolled back as coded) leaves the container EXACTLY as it was *)
+(* HashMultiMap: a call that throws leaves the container EXACTLY as it was.  Content of this theorem: for RemoveKey the coded
+   sequence "move the array out - mHashMap.Remove throws - move it back" is modelled step by step and the theorem shows that it
+   restores the state (upd_restore).  For Add / Add(keyIter) the statement is IMMEDIATE FROM THE MODELLING: step1f returns the
+   unchanged state when an allocation point of AddBackCrt fails (that all allocation points precede any write is what
+   add_back_f encodes, and what C08_gen_add_back_skeleton shows for the state byte), and placing a new key relies on the strong
+   guarantee of HashMap::AddCrt (property C04), which is assumed, not proved here.  The evidence that the real code behaves so is
+   the fault enumeration of the harness (identical dump after every injected failure), i.e. tie / oracle. *)
 Theorem C08_mm_throwing_call_leaves_container_unchanged :
   forall (M : Z) (m : mm) (o : op) (fs : list bool) (m' : mm) (fs' : list bool),
   step1f M m o fs = (m', true, fs') -> m' = m.
@@ -450,7 +455,7 @@ Print Assumptions C08_versions_all_histories.
 (* the REAL Remove(ConstIterator) (regenerated from HashMultiMap.h; calls into the value array / key table skipped):
    mValueCount - 1, valueVersion + 1, and the iterator it returns is pvMakeIterator(key, the SAME valueIndex, move = TRUE) *)
 Theorem C08_gen_remove_returns_moved_iterator_at_same_index :
-  forall (null : bool) (cnt ver ri : Z) (rm : bool) (idx : Z), no_wrap (cnt - 1) -> no_wrap ver ->
+  forall (cnt ver ri : Z) (rm : bool) (idx : Z), no_wrap (cnt - 1) -> no_wrap ver ->
   Gen_HashMultiMap.Remove_iter cnt ver ri rm idx = (cnt - 1, ver + 1, idx, true).
 Proof. exact gen_remove_iter. Qed.
 Print Assumptions C08_gen_remove_returns_moved_iterator_at_same_index.
